@@ -359,6 +359,13 @@ func (ex *Exec) dispatch(v ssa.Value, cc *ssa.CallCommon, instr ssa.Instruction,
 		return
 	}
 	inPkg := callee.Pkg == vc.ctx.pkg || (callee.Pkg == nil && callee.Parent() != nil) || (callee.Pkg == nil && recvInPkg(callee, vc.ctx.tpkg))
+	if inPkg && ex.nilsweep && ex.pass == 2 && callee.Signature.Recv() != nil && len(cc.Args) > 0 && len(callee.Params) > 0 {
+		// a method called on what a callee or a map handed back: if the method reaches through its
+		// receiver before testing it for nil, the receiver must be non-nil here
+		if _, isPtr := callee.Params[0].Type().Underlying().(*types.Pointer); isPtr && mayBeNilResult(cc.Args[0], 0) && derefsReceiverAtEntry(callee) {
+			ex.panicOblig("nil", instr.Pos(), isCallExpr, fmt.Sprintf("(not (= %s 0))", ex.val(cc.Args[0]).T))
+		}
+	}
 	if inPkg {
 		cname := callee.RelString(vc.ctx.tpkg)
 		if fc := vc.ctx.cf.Funcs[cname]; fc != nil {
@@ -412,6 +419,28 @@ func (ex *Exec) dispatch(v ssa.Value, cc *ssa.CallCommon, instr ssa.Instruction,
 		}
 	}
 	ex.external(v, callee, cc, args)
+}
+
+// derefsReceiverAtEntry: the method's entry block reaches through the receiver (a field access or
+// a load) before any branch, i.e. before it could have tested the receiver for nil.
+func derefsReceiverAtEntry(f *ssa.Function) bool {
+	if len(f.Blocks) == 0 || len(f.Params) == 0 {
+		return false
+	}
+	recv := f.Params[0]
+	for _, in := range f.Blocks[0].Instrs {
+		switch x := in.(type) {
+		case *ssa.FieldAddr:
+			if x.X == recv {
+				return true
+			}
+		case *ssa.UnOp:
+			if x.X == recv {
+				return true
+			}
+		}
+	}
+	return false
 }
 
 func recvInPkg(f *ssa.Function, pkg *types.Package) bool {
